@@ -744,6 +744,9 @@ func (w *factWalker) exprFacts(e ast.Expr) {
 				w.lab("op-unsupported:" + x.Op.String())
 				w.f.UnsupportedOps = append(w.f.UnsupportedOps, x.Op.String())
 			}
+		case *ast.ParenExpr:
+			w.lab("paren")
+			w.f.UnsupportedOps = append(w.f.UnsupportedOps, "()")
 		case *ast.UnaryExpr:
 			if x.Op == token.ARROW {
 				w.lab("chan-recv")
